@@ -47,7 +47,7 @@ x_landis_2dstaefa == <<108, 97, 110, 100, 105, 115, 45, 115, 116, 97, 101, 102, 
 x_153 == <<49, 53, 51>>   \* "153"
 x_0 == <<48>>   \* "0"
 x_dungs == <<100, 117, 110, 103, 115>>   \* "dungs"
-x_255 == <<50, 53, 53>>   \* "255"
+x_254 == <<50, 53, 52>>   \* "254"
 x_Vaillant == <<86, 97, 105, 108, 108, 97, 110, 116>>   \* "Vaillant"
 x_181 == <<49, 56, 49>>   \* "181"
 x_b5 == <<98, 53>>   \* "b5"
@@ -138,9 +138,14 @@ BaseSl == Sl(181, x_BAI00, <<1, 2>>, <<3, 4>>)     \* Vaillant BAI00 SW 0102 HW 
 World(fam, addr, has, sl, ents) == [t |-> "sel", addr |-> addr, has |-> has, sl |-> sl, ents |-> ents]
 Ents(E) == SetToSeq(E)
 Files(dir, NS, kind) == {<<InDir(dir, n), kind>> : n \in NS}
-UpTo2(S) == {{a, b} : a \in S, b \in S}
-UpTo3(S) == {{a, b, c} : a \in S, b \in S, c \in S}
-UpTo4(S) == {{a, b, c, d} : a \in S, b \in S, c \in S, d \in S}
+(* the subsets of 1..4 elements, each built once (q = the set as a sequence) *)
+Sub1(q) == {{q[i]} : i \in 1..Len(q)}
+Sub2(q) == UNION {{{q[i], q[j]} : j \in (i + 1)..Len(q)} : i \in 1..Len(q)}
+Sub3(q) == UNION {UNION {{{q[i], q[j], q[k]} : k \in (j + 1)..Len(q)} : j \in (i + 1)..Len(q)} : i \in 1..Len(q)}
+Sub4(q) == UNION {UNION {UNION {{{q[i], q[j], q[k], q[l]} : l \in (k + 1)..Len(q)} : k \in (j + 1)..Len(q)} : j \in (i + 1)..Len(q)} : i \in 1..Len(q)}
+UpTo2(S) == LET q == SetToSeq(S) IN Sub1(q) \cup Sub2(q)
+UpTo3(S) == LET q == SetToSeq(S) IN Sub1(q) \cup Sub2(q) \cup Sub3(q)
+UpTo4(S) == LET q == SetToSeq(S) IN Sub1(q) \cup Sub2(q) \cup Sub3(q) \cup Sub4(q)
 
 (* ---- the name grammar: optional ident, circuit, suffix, versions in either order ---- *)
 SWm == x_SW0102   SWx == x_SW0103   HWm == x_HW0304   HWx == x_HW0305
@@ -159,13 +164,15 @@ NamesA1 == Names({x_08, x_15}, IdAll, CircAll, SufAll, VerAll)
 FamA1(th) == {World("A1", 8, 1, BaseSl, Ents(Files(x_vaillant, {n}, 0))) : n \in NamesA1}
 
 (* A2: precedence between two candidates *)
-NamesA2(th) == IF th THEN Names({x_08}, {NoSeg, Seg1(<<>>), Seg1(x_bai00), Seg1(x_bai0), Seg1(x_bai), Seg1(x_bax)}, CircAll, {NoSeg}, VerAll)
+NamesA2(th) == IF th THEN Names({x_08}, {NoSeg, Seg1(<<>>), Seg1(x_bai00), Seg1(x_bai0), Seg1(x_bai), Seg1(x_bax)}, {NoSeg, Seg1(x_longcirc)}, {NoSeg},
+                                {NoSeg, <<SWm>>, <<SWx>>, <<HWm>>, <<HWx>>, <<SWm, HWm>>, <<SWx, HWm>>, <<SWm, HWx>>, <<HWm, SWm>>})
                ELSE Names({x_08}, {NoSeg, Seg1(<<>>), Seg1(x_bai00), Seg1(x_bai0), Seg1(x_bai), Seg1(x_bax)}, {NoSeg, Seg1(x_longcirc)}, {NoSeg},
                           {NoSeg, <<SWm>>, <<SWx>>, <<HWm>>, <<SWm, HWm>>, <<SWx, HWm>>})
 FamA2(th) == {World("A2", 8, 1, BaseSl, Ents(Files(x_vaillant, P, 0))) : P \in {Q \in UpTo2(NamesA2(th)) : Cardinality(Q) = 2}}
 
 (* A3: three and four candidates of a core grammar *)
 NamesA3(th) == IF th THEN Names({x_08}, {NoSeg, Seg1(x_bai0), Seg1(x_bai)}, {NoSeg, Seg1(x_longcirc)}, {NoSeg}, {NoSeg, <<SWm>>, <<HWm>>, <<SWm, HWm>>})
+                          \ {NameOf(x_08, <<SWm>>), NameOf(x_08, <<HWm>>), NameOf(x_08, <<x_bai0, x_longcirc, HWm>>), NameOf(x_08, <<x_bai0, HWm>>)}
                ELSE Names({x_08}, {NoSeg, Seg1(x_bai0), Seg1(x_bai)}, {NoSeg, Seg1(x_longcirc)}, {NoSeg}, {NoSeg, <<SWm>>, <<SWm, HWm>>}) \ {NameOf(x_08, <<SWm, HWm>>)}
 FamA3(th) == {World("A3", 8, 1, BaseSl, Ents(Files(x_vaillant, P, 0))) : P \in {Q \in UpTo4(NamesA3(th)) : Cardinality(Q) >= 3}}
 
@@ -187,8 +194,8 @@ VerPairs(th) == IF th THEN VerBytes \X VerBytes ELSE {<<s, <<3, 4>> >> : s \in V
 FamA5(th) == UNION {{World("A5", 8, 1, Sl(181, x_BAI00, sh[1], sh[2]), Ents(Files(x_vaillant, P, 0))) : P \in UpTo2(NamesA5)} : sh \in VerPairs(th)}
 
 (* A6: manufacturer byte against the directory the file lies in *)
-MfBytes == {181, 16, 15, 253, 133, 21, 153, 0, 6, 255}
-MfDirs == {x_vaillant, x_tem, x_fh_20ostfalia, x_ebusd_2eeu, x_ebm_2dpapst, x_landis_2dstaefa, x_153, x_0, x_dungs, x_255, x_Vaillant, x_181, x_b5,
+MfBytes == {181, 16, 15, 253, 133, 21, 153, 0, 6, 254}
+MfDirs == {x_vaillant, x_tem, x_fh_20ostfalia, x_ebusd_2eeu, x_ebm_2dpapst, x_landis_2dstaefa, x_153, x_0, x_dungs, x_254, x_Vaillant, x_181, x_b5,
            x_TEM, x_16, x_10, x_99, <<>>}
 FamA6(th) == {World("A6", 8, 1, Sl(mf, x_BAI00, <<1, 2>>, <<3, 4>>), Ents(Files(d, {NameOf(x_08, <<x_bai>>)}, 0))) : mf \in MfBytes, d \in MfDirs}
              \cup {World("A6", 8, 1, Sl(mf, x_BAI00, <<1, 2>>, <<3, 4>>),
